@@ -46,6 +46,11 @@ Entry(k, v) == [k |-> k, v |-> v]
 KeyIdx(o, name) == {j \in 1..o.n : o.e[j].k = name}
 Has(o, name) == KeyIdx(o, name) # {}
 Get(o, name) == o.e[CHOOSE j \in KeyIdx(o, name) : TRUE].v
+\* Duplicate names: RFC 8259 section 4 calls the behaviour of receivers "unpredictable" (first wins, last wins, error).
+\* The variables are forwarded to other software, so an object is coercible only if EVERY occurrence of a name is
+\* (then every reading is); an object whose occurrences are all coercible may also be refused and is not generated.
+Occ(o, name) == {o.e[j].v : j \in KeyIdx(o, name)}
+HasDup(o) == \E a, b \in 1..o.n : a # b /\ o.e[a].k = o.e[b].k
 
 \* ---------------------------------------------------------------- scalars (spec 3.5.1 - 3.5.5, "Input Coercion")
 \*  Int:     only integer input values that fit 32 bit signed
@@ -54,13 +59,23 @@ Get(o, name) == o.e[CHOOSE j \in KeyIdx(o, name) : TRUE].v
 \*  Boolean: only boolean input values
 \*  ID:      string or integer input values ("any other input value, including float input values, must raise a request error")
 \*  custom:  coercion is defined by the implementation; the library passes custom scalars through, every non-null JSON value is coercible
+\* [t |-> "N", v |-> spelling]: a JSON number written in a particular way.  JSON (RFC 8259) numbers are values, not
+\* spellings: 1.0, 1e2, -0, 100E-2 are the integers 1, 100, 0, 1; 1e10 and 2147483648.0 are integers outside int32;
+\* 1e400 is outside the finite IEEE 754 doubles (spec 3.5.2: a Float input "not representable by finite IEEE 754"
+\* must raise a request error; it is not generated for ID, where the specifications leave the answer open).
+VNum(sp) == [t |-> "N", v |-> sp]
+SpellClass(sp) == CASE sp \in {"1.0", "1e2", "-0", "100E-2", "1.5e1"} -> "i"
+                    [] sp \in {"1e10", "2147483648.0"} -> "I"
+                    [] sp \in {"1e400", "-1e400"} -> "X"
+Cls(v) == IF v.t = "N" THEN SpellClass(v.v) ELSE v.t
 ScalarOK(n, v) ==
-  CASE n = "Int"     -> v.t = "i"
-    [] n = "Float"   -> v.t \in {"i", "I", "f"}
+  CASE n = "Int"     -> Cls(v) = "i"
+    [] n = "Float"   -> Cls(v) \in {"i", "I", "f"}
     [] n = "String"  -> v.t = "s"
     [] n = "Boolean" -> v.t = "b"
-    [] n = "ID"      -> v.t \in {"s", "i", "I"}
+    [] n = "ID"      -> Cls(v) \in {"s", "i", "I"}
     [] OTHER         -> TRUE
+Tag(v) == IF v.t = "N" THEN "N" \o v.v ELSE v.t      \* for kinds
 
 FieldIdx(d, name) == {f \in 1..Len(d.fields) : d.fields[f].name = name}
 IsEnumValue(d, v) == v.t = "s" /\ \E j \in 1..Len(d.values) : d.values[j] = v.v
@@ -81,7 +96,7 @@ Coercible(S, T, v) ==
               /\ \A j \in 1..v.n : FieldIdx(d, v.e[j].k) # {}               \* no entry whose name is not a field of the type
               /\ \A f \in 1..Len(d.fields) :
                     LET fd == d.fields[f] IN
-                    IF Has(v, fd.name) THEN Coercible(S, fd.type, Get(v, fd.name))   \* includes: explicit null only for nullable fields
+                    IF Has(v, fd.name) THEN \A w \in Occ(v, fd.name) : Coercible(S, fd.type, w)   \* includes: explicit null only for nullable fields
                     ELSE fd.def \/ fd.type.k # "nn"                         \* absent: default, or not required
               /\ d.oneOf => (v.n = 1 /\ v.e[1].v.t # "n")                   \* OneOf: exactly one entry and it is non-null
 
@@ -113,34 +128,34 @@ Errs(S, T, v, p, c, m) ==
                            UNION {Errs(S, T.of, v.v[i], Idx(p, i - 1), ItemCtx(c), mm) : i \in 1..v.n}
          ELSE Errs(S, T.of, v, p, ItemCtx(c), m) \cup Errs(S, T.of, v, Idx(p, 0), ItemCtx(c), m)
   ELSE LET d == S[T.n] IN
-       CASE d.kind = "scalar" -> IF ScalarOK(T.n, v) THEN {} ELSE {E(p, m \o T.n \o ":" \o v.t \o "@" \o c)}
+       CASE d.kind = "scalar" -> IF ScalarOK(T.n, v) THEN {} ELSE {E(p, m \o T.n \o ":" \o Tag(v) \o "@" \o c)}
          [] d.kind = "enum"   -> IF IsEnumValue(d, v) THEN {}
-                                 ELSE {E(p, m \o "enum:" \o (IF v.t # "s" THEN v.t ELSE IF IsHidden(d, v) THEN "inaccessible" ELSE "unknown") \o "@" \o c)}
+                                 ELSE {E(p, m \o "enum:" \o (IF v.t # "s" THEN Tag(v) ELSE IF IsHidden(d, v) THEN "inaccessible" ELSE "unknown") \o "@" \o c)}
          [] d.kind = "input"  ->
-              IF v.t # "o" THEN {E(p, m \o "input:" \o v.t \o "@" \o c)}
-              ELSE UNION {IF FieldIdx(d, v.e[j].k) = {}
-                          THEN {E(p, m \o "field:unknown@" \o c), E(Sub(p, v.e[j].k), m \o "field:unknown@" \o c)} ELSE {} : j \in 1..v.n}
+              IF v.t # "o" THEN {E(p, m \o "input:" \o Tag(v) \o "@" \o c)}
+              ELSE LET mo == IF HasDup(v) THEN "dupkey:" ELSE m IN
+                   UNION {IF FieldIdx(d, v.e[j].k) = {}
+                          THEN {E(p, mo \o "field:unknown@" \o c), E(Sub(p, v.e[j].k), mo \o "field:unknown@" \o c)} ELSE {} : j \in 1..v.n}
                    \cup UNION {LET fd == d.fields[f] IN
-                               IF Has(v, fd.name) THEN Errs(S, fd.type, Get(v, fd.name), Sub(p, fd.name), IF fd.def THEN "dfield" ELSE "field", m)
+                               IF Has(v, fd.name) THEN UNION {Errs(S, fd.type, w, Sub(p, fd.name), IF fd.def THEN "dfield" ELSE "field", mo) : w \in Occ(v, fd.name)}
                                ELSE IF fd.def \/ fd.type.k # "nn" THEN {}
-                               ELSE {E(p, m \o "field:missing@" \o c), E(Sub(p, fd.name), m \o "field:missing@" \o c)}
+                               ELSE {E(p, mo \o "field:missing@" \o c), E(Sub(p, fd.name), mo \o "field:missing@" \o c)}
                                : f \in 1..Len(d.fields)}
-                   \cup (IF d.oneOf /\ v.n # 1 THEN {E(p, m \o "oneof:count@" \o c)} ELSE {})
-                   \cup (IF d.oneOf /\ v.n = 1 /\ v.e[1].v.t = "n" THEN {E(p, m \o "oneof:null@" \o c)} ELSE {})
+                   \cup (IF d.oneOf /\ v.n # 1 THEN {E(p, mo \o "oneof:count@" \o c)} ELSE {})
+                   \cup (IF d.oneOf /\ v.n = 1 /\ v.e[1].v.t = "n" THEN {E(p, mo \o "oneof:null@" \o c)} ELSE {})
 
 \* ---------------------------------------------------------------- variables of an operation (6.1.2 CoerceVariableValues)
 \* op   = <<[name, type, def (has a default value)]>>   the variable definitions
 \* vars = Absent (request without a "variables" member) | VNull ("variables": null) | an object value
-VarValue(vars, name) == IF vars.t = "o" /\ Has(vars, name) THEN Get(vars, name) ELSE Absent
+VarValues(vars, name) == IF vars.t = "o" THEN Occ(vars, name) ELSE {}      \* several only for duplicate names
 VarOK(S, vd, vars) ==
-  LET v == VarValue(vars, vd.name) IN
-  IF v.t = "x" THEN vd.def \/ vd.type.k # "nn"        \* no value: default value, else error iff Non-Null
-  ELSE Coercible(S, vd.type, v)                       \* value (incl. explicit null): coerce
+  IF VarValues(vars, vd.name) = {} THEN vd.def \/ vd.type.k # "nn"        \* no value: default value, else error iff Non-Null
+  ELSE \A v \in VarValues(vars, vd.name) : Coercible(S, vd.type, v)       \* value (incl. explicit null): coerce
 VarErrs(S, vd, vars) ==
-  LET v == VarValue(vars, vd.name) IN
-  IF v.t = "x" THEN (IF vd.def \/ vd.type.k # "nn" THEN {}
-                     ELSE {E(vd.name, "var:missing:" \o (CASE vars.t = "x" -> "novars" [] vars.t = "n" -> "nullvars" [] OTHER -> "obj"))})
-  ELSE Errs(S, vd.type, v, vd.name, "var", "")
+  IF VarValues(vars, vd.name) = {}
+  THEN (IF vd.def \/ vd.type.k # "nn" THEN {}
+        ELSE {E(vd.name, "var:missing:" \o (CASE vars.t = "x" -> "novars" [] vars.t = "n" -> "nullvars" [] OTHER -> "obj"))})
+  ELSE UNION {Errs(S, vd.type, v, vd.name, "var", IF HasDup(vars) THEN "dupkey:" ELSE "") : v \in VarValues(vars, vd.name)}
 
 AcceptVars(S, op, vars) == \A i \in 1..Len(op) : VarOK(S, op[i], vars)
 Offending(S, op, vars) == {i \in 1..Len(op) : ~VarOK(S, op[i], vars)}
@@ -173,6 +188,9 @@ ASSUME ~Coercible(ExSchema, ExT, VObjE(<<Entry("a", VStr("any"))>>))
 ASSUME ~Coercible(ExSchema, ExT, EmptyObj)
 ASSUME ~Coercible(ExSchema, ExT, VObjE(<<Entry("b", VNull)>>))
 ASSUME ~Coercible(ExSchema, ExT, VObjE(<<Entry("a", VStr("any")), Entry("b", VInt), Entry("c", VStr("any"))>>))
+\* number spellings and duplicate names
+ASSUME Coercible(ExSchema, Named("Int"), VNum("1.0")) /\ Coercible(ExSchema, Named("Int"), VNum("-0")) /\ ~Coercible(ExSchema, Named("Int"), VNum("1e10"))
+ASSUME ~Coercible(ExSchema, ExT, VObjE(<<Entry("b", VInt), Entry("b", VNull)>>)) /\ ~Coercible(ExSchema, ExT, VObjE(<<Entry("b", VNull), Entry("b", VInt)>>))
 \* 6.1.2
 ASSUME AcceptVars(ExSchema, <<[name |-> "x", type |-> NonNull(Named("Int")), def |-> TRUE]>>, Absent)
 ASSUME ~AcceptVars(ExSchema, <<[name |-> "x", type |-> NonNull(Named("Int")), def |-> FALSE]>>, Absent)
